@@ -29,7 +29,7 @@ func c12SandboxVal(r interface{ Intn(int) int }) string {
 			toks = append(toks, t) // duplicate
 		}
 	}
-	sep := []string{" ", "  ", "\t", "\n", " \t ", "\f", " ", "\r\n"}[r.Intn(8)]
+	sep := []string{" ", "  ", "\t", "\n", " \t ", "\f", "\r\n", "\u00a0", "\v", "\u2003", " \u00a0"}[r.Intn(11)]
 	v := strings.Join(toks, sep)
 	if r.Intn(6) == 0 {
 		v = " " + v + " "
